@@ -567,3 +567,11 @@ M('ids-multi-all-same', ['C12'], CLI, '                config.id = f"{filter_nam
 M('ids-named-even-if-given', ['C12'], CLI, "        if (\n            config.id is None\n        ):  # build list of filters without id", "        if (\n            True\n        ):  # build list of filters without id", ['C12.R6'])
 M('conv-keeps-wildcard-host', ['C12'], CLI, """output = f'tcp://{"localhost" if addr[:1] in "*0" else addr}:{port}'""", """output = f'tcp://{addr}:{port}'""", ['C12.R7'])
 M('alloc-connect-port-off-by-one', ['C12'], CLI, '                    id_config.outputs = f"tcp://*:{max_port}"', '                    id_config.outputs = f"tcp://*:{max_port + 1}"', ['C12.R7', 'C12.R1'])
+
+# ------------------------------------------------------------------------------------------------------ C17.R5
+M('maxsize-both-uses-max', ['C17'], UT, "                    h = int(h * (s := min(width / w, height / h)))\n                    w = int(w * s)\n\n            w = max(1, min(w, width))", "                    h = int(h * (s := max(width / w, height / h)))\n                    w = int(w * s)\n\n            w = max(1, min(w, width))", ['C17.R5'])
+M('maxsize-height-by-height-ratio', ['C17'], UT, "                if not hgt:\n                    h = int(h * width / w)\n                elif not wgt:\n                    w = int(w * height / h)\n                else:\n                    h = int(h * (s := min(", "                if not hgt:\n                    h = int(h * height / h)\n                elif not wgt:\n                    w = int(w * height / h)\n                else:\n                    h = int(h * (s := min(", ['C17.R5'])
+M('maxsize-cases-swapped', ['C17'], UT, "                if not hgt:\n                    h = int(h * width / w)\n                elif not wgt:\n                    w = int(w * height / h)\n                else:\n                    h = int(h * (s := min(", "                if hgt:\n                    h = int(h * width / w)\n                elif not wgt:\n                    w = int(w * height / h)\n                else:\n                    h = int(h * (s := min(", ['C17.R5'])
+M('size-width-height-swapped', ['C17'], UT, "                        xform.width  = int(width)\n                        xform.height = int(height)", "                        xform.width  = int(height)\n                        xform.height = int(width)", ['C17.R6'])
+M('size-aspect-inverted', ['C17'], UT, "                        if aspect != 'x':\n                            xform.aspect = False", "                        if aspect == 'x':\n                            xform.aspect = False", ['C17.R6'])
+M('box-fields-shifted', ['C17'], UT, "                        xform.x      = float(x)\n                        xform.y      = float(y)", "                        xform.x      = float(y)\n                        xform.y      = float(x)", ['C17.R6'])
